@@ -276,6 +276,27 @@ def check_slot(name, g, ref, res, ctx, loose=False, unconstrained=(), observe=Tr
     return True
 
 
+def _independent_of_left(h, left, right, res, ctx):
+    """The non-in-place operators work on a deep copy of their left operand (anchors of C15/C17): the
+    result may not hold any of the left operand's mutable parts, or a later in-place edit of the result
+    would write through to the operand."""
+    if h is left:
+        res.violate('algebra', 'result-is-the-left-operand', **ctx)
+        return False
+    # marker lists that also belong to the right operand are excluded: the pinned union carries the
+    # right operand's list objects along (appendix B), which the statement does not forbid
+    mine = {id(l) for l in left.epidata.values()} - {id(l) for l in right.epidata.values()}
+    if right is left:
+        return True
+    shared = [list(map(str, t)) for t, l in h.epidata.items() if id(l) in mine]
+    if h.triples is left.triples or h.epidata is left.epidata or (h.metadata is left.metadata) or shared:
+        res.violate('algebra', 'result-shares-mutable-state-with-left-operand', shared_marker_lists=shared[:4],
+                    triples_shared=h.triples is left.triples, epidata_shared=h.epidata is left.epidata,
+                    metadata_shared=h.metadata is left.metadata, **ctx)
+        return False
+    return True
+
+
 def execute(trace):
     from penman.exceptions import GraphError
     res = RunResult()
@@ -322,6 +343,8 @@ def execute(trace):
                     res.hit('probe.markers_carried')
                 if name == 'or':
                     h = heap[i] | heap[j]
+                    if not _independent_of_left(h, heap[i], heap[j], res, ctx):
+                        break
                     dst = op['dst'] % (n + 1) if n < 4 else op['dst'] % n
                     lz = loose[i] or loose[j]
                     if dst == n:
@@ -349,6 +372,8 @@ def execute(trace):
                     res.hit('probe.top_dropped' if nr.top is None else 'probe.top_kept')
                 if name == 'sub':
                     h = heap[i] - heap[j]
+                    if not _independent_of_left(h, heap[i], heap[j], res, ctx):
+                        break
                     dst = op['dst'] % (n + 1) if n < 4 else op['dst'] % n
                     lz = loose[i] or loose[j]
                     if dst == n:
